@@ -28,6 +28,9 @@ Rule ==
          /\ Ev.nonan /\ \A i \in 1..Len(Ev.out) : InUnit(Ev.out[i], Ev.ft)            \* each in [0, 1]
          /\ Within(Ev.sum, FOne(Ev.ft), 4 + Ev.n)                                    \* sums to 1 within a few ulp
          /\ Ev.api_same                                                              \* sample() and sample_to_slice agree
+         /\ (Ev.wired /\ Ev.stream = "random") =>                                   \* (random streams; an adversarial word can force u = 0 or 1) the support is the OPEN simplex: a component is exactly 0 only by underflow,
+              \A i \in 1..Len(Ev.out) :                                             \* whose probability is about tiny^alpha (tiny = 2^-1074 / 2^-149): below 2^-40 it must not happen
+                 (Ev.alpha64[i] * (IF Ev.ft = "f64" THEN 1074 ELSE 149) >= 64 * 40) => ~LEQ(Ev.out[i], FZero)
          /\ Ev.wired =>                                                              \* dyadic alpha: one of the two documented constructions
               /\ Ev.sbp = SBParams(Ev.alpha64) /\ Ev.gnp = GNParams(Ev.alpha64)     \* the harness built them with the right parameters
               /\ \/ (AllWithin(Ev.out, Ev.sb, 4) /\ Ev.w = Ev.wsb)
